@@ -65,6 +65,11 @@ func runNodeCase(cs *hx.Case, fs *hx.FindingSet, cfg genCfg, after func(nm *hx.N
 	if cfg.Opts != nil {
 		cfg.Opts(rt, &opts)
 	}
+	// capacity as an input: 1 history in 3 runs with output / balance caches of 1-4 entries (round-7 angle: the default
+	// capacity of 1000 is never reached by a generated history, so eviction code never ran)
+	if rapid.IntRange(0, 2).Draw(rt, "smallcache") == 0 {
+		opts.UtxoCache = rapid.IntRange(1, 4).Draw(rt, "utxocache")
+	}
 	cs.Op(map[string]interface{}{"opts": opts})
 	nm, err := hx.NewNodeMachine(opts, fs)
 	if err != nil {
